@@ -90,6 +90,10 @@ def r1(ctx):
         if x["k"] == "Match" and x.get("src") == "Normal" and any("Result::Ok" in render_pat(a_["pat"]) for a_ in x["arms"]) and \
                 any("Result::Err" in render_pat(a_["pat"]) and not any(y["k"] == "Ret" and "Err" in render(y.get("e")) for y in walk_exprs(a_["body"])) for a_ in x["arms"]):
             conds += " | " + render(x["scrut"])
+    # `let Ok(x) = step else { skip };` consumes the fallible step by a pattern too
+    for x in walk(hir):
+        if x.get("k") == "Let" and x.get("els") is not None and x.get("init") is not None and "Result::Ok" in render_pat(x["pat"]):
+            conds += " | " + render(x["init"])
     need = ["min_depth", "search_archives", "is_zip_archive", "File::open", "read::new", "by_index"]
     missing = [w for w in need if w not in conds]
     ctx.obligation(not missing)
@@ -141,6 +145,13 @@ def r1(ctx):
             # LIMIT stop, closed pipe (check_file said stop), or skipping a member that cannot be read (`Err(_) => continue`)
             ok = ("limit" in g and "found" in g) or "!checked" in g or "check_file" in chased or \
                 (x["k"] == "Continue" and "by_index" in gm and "Err" in gm)
+            # `let Ok(member) = archive.by_index(i) else { continue };` (and the same for the two steps that open the archive):
+            # the step that failed is skipped, nothing else
+            if not ok:
+                for st in walk(loop):
+                    if st.get("k") == "Let" and st.get("els") is not None and st.get("init") is not None and any(y is x for y in walk_exprs(st["els"])):
+                        init_ = render(st["init"])
+                        ok = "Result::Ok" in render_pat(st["pat"]) and any(w in init_ for w in ("by_index", "File::open", "read::new", "ZipArchive"))
             ctx.obligation(ok)
             if not ok:
                 ctx.violation("members/exit/%s" % g[:50], ctx.where(VISIT_DIR, x), "the member loop is left under `%s`; only LIMIT and a closed pipe may end it" % g)
